@@ -413,23 +413,46 @@ Proof. exact wf_consumed_run. Qed.
 
 (* ------------------------------------------------------------------ builders compiled as nodes of another builder *)
 (* "After a successful Compile the graph can no longer be modified", for a Graph that is compiled as a NODE of
-   another Graph (AddGraphNode; Model/BuilderNested.v: the outer graph, the inner graph values and the calls made
+   another Graph (AddGraphNode; Model/BuilderNested.v: the outer graph, the inner Graph / Chain values and the calls made
    on either, the children compiled in the order of their keys): after a successful Compile of the outer graph,
-   every inner graph held by one of its nodes is compiled; whatever is called afterwards on the outer graph or on
-   any inner graph (Add*, further Compiles of either), that inner graph stays exactly what it is, and every Add*
-   on it is answered with ErrGraphCompiled. *)
-Theorem nested_children_frozen : forall s o s1 r k id gi cs c,
+   every inner builder held by one of its nodes is compiled; whatever is called afterwards on the outer graph or on
+   any inner builder (Add* / Append*, further Compiles of either), the graph of that inner builder stays exactly what it
+   is, and every Add* on an inner Graph is answered with ErrGraphCompiled. *)
+Theorem nested_children_frozen : forall s o s1 r k id i cs,
   nstep s (NOuter (GCompile o)) = (s1, OCompiled r) ->
-  In k (map fst (g_nodes (ns_out s))) -> nlookup k (ns_att s) = Some id -> nlookup id (ns_inn s1) = Some gi ->
-  g_err gi = None -> is_add c = true ->
+  In k (map fst (g_nodes (ns_out s))) -> nlookup k (ns_att s) = Some id -> nlookup id (ns_inn s1) = Some i ->
   let s2 := final nstep s1 cs in
-  child_frozen s2 id gi /\ nstep s2 (NInner id c) = (s2, OErr ECompiled).
+  child_frozen s2 id (inner_graph i)
+  /\ (forall gi c, nlookup id (ns_inn s2) = Some (IG gi) -> g_err gi = None -> is_add c = true ->
+        nstep s2 (NInner id (KG c)) = (s2, OErr ECompiled)).
 Proof. exact nested_no_modification_after_compile. Qed.
 Print Assumptions nested_children_frozen.
 
+(* the same for the states the correspondence replays — whatever was called before the Compile: every attachment
+   names a node of the outer graph ([att_inv], an invariant of [nstep]) *)
+Theorem nested_children_frozen_reachable : forall st cs0 o s1 r k id i cs,
+  let s := final nstep (n_init st) cs0 in
+  nstep s (NOuter (GCompile o)) = (s1, OCompiled r) ->
+  nlookup k (ns_att s) = Some id -> nlookup id (ns_inn s1) = Some i ->
+  let s2 := final nstep s1 cs in
+  child_frozen s2 id (inner_graph i)
+  /\ (forall gi c, nlookup id (ns_inn s2) = Some (IG gi) -> g_err gi = None -> is_add c = true ->
+        nstep s2 (NInner id (KG c)) = (s2, OErr ECompiled)).
+Proof. exact nested_no_modification_after_compile_reachable. Qed.
+Print Assumptions nested_children_frozen_reachable.
+
+(* a Chain child: an Append* made on a compiled Chain cannot return an error; it leaves the chain's graph alone and
+   records ErrChainCompiled, which the chain's compile — the function its parent's Compile calls — returns from then on *)
+Theorem nested_frozen_chain_child_reports : forall s id ch nk key ns,
+  nlookup id (ns_inn s) = Some (IC ch) -> g_compiled (c_g ch) = true ->
+  exists ch', nlookup id (ns_inn (fst (nstep s (NInner id (KC (CAppend nk key ns)))))) = Some (IC ch')
+    /\ c_g ch' = c_g ch /\ exists e, c_err ch' = Some e /\ inner_compile (IC ch') = (IC ch', OErr e).
+Proof. exact BuilderNested.nested_frozen_chain_child_reports. Qed.
+Print Assumptions nested_frozen_chain_child_reports.
+
 Example nested_children_frozen_nonvacuous :
   match snd (run_calls nstep (n_init false) one_child_run) with
-  | [OOk; OOk; OOk; OCompiled _; OErr ECompiled; OErr ECompiled; OCompiled _] => True
+  | [OOk; OOk; OOk; OOk; OOk; OCompiled _; OErr ECompiled; OErr ECompiled; OCompiled _; OOk; OErr EChainCompiled; OErr EChainCompiled] => True
   | _ => False
   end.
 Proof. exact one_child_run_outcomes. Qed.
